@@ -1,4 +1,5 @@
 """C14 — migrating a legacy database to the SQLite store loses nothing."""
+import copy
 import hashlib
 import os
 import shutil
@@ -14,7 +15,7 @@ ANCHOR_FILES = ["aw_datastore/migration.py"]
 REQUIRED_COUNTERS = ["migrations_triggered", "events_compared", "buckets_compared"]
 RULE = ("legacy databases built by the real PeeweeStorage at its default path inside a private XDG_DATA_HOME: 0-6 "
         "buckets (unicode ids, data dicts, with/without name, explicit creation instants), 0-300 events each "
-        "(generated instants/durations/JSON data; ids overlap across buckets; 100-row chunk boundaries crossed) and a few "
+        "(generated instants/durations/JSON data, some events recorded two or three times identically; ids overlap across buckets; 100-row chunk boundaries crossed) and a few "
         "per cent with 999-5000 time-clustered, overlapping events (page / batch boundaries of any size up to 5000), in "
         "the normal and the testing profile, sometimes with the OTHER profile's legacy file present too; then "
         "SqliteStorage is created at its default location, which triggers the migration; bucket sets, metadata and "
@@ -66,6 +67,9 @@ def gen_case(rng, ctx):
                 s["data"] = {"app": rng.choice(["a", "b"])}
             s["data"]["uid"] = uid
             evs.append(s)
+            if rng.random() < 0.08:
+                # the same observation recorded more than once (distinct legacy ids, identical instant/duration/data)
+                evs += [copy.deepcopy(s) for _ in range(rng.choice([1, 1, 2]))]
         b = dict(id=bid, type=rng.choice(["t", "currentwindow"]), client="c-" + bid[:3], hostname=rng.choice(["h", "ünï"]), events=evs)
         if rng.random() < 0.6:
             b["name"] = rng.choice(["nm", "ä name"])
